@@ -20,7 +20,7 @@ def sh(cmd):
 
 def main():
     name, letter, prop, sid, needs = sys.argv[1:6]
-    src = {"y": "/tmp/mut8/%s_out", "z": "/tmp/mut9/%s_out"}.get(name[0], "/tmp/mut/%s_out") % name
+    src = {"y": "/tmp/mut8/%s_out", "z": "/tmp/mut9/%s_out", "q": "/tmp/mut10/%s_out"}.get(name[0], "/tmp/mut/%s_out") % name
     patch = os.path.join(src, "patch%s.diff" % letter)
     demo = os.path.join(src, "demo%s.cpp" % letter)
     wt, b = "/tmp/vimp/wt_" + sid, "/tmp/vimp/b_" + sid
